@@ -857,6 +857,7 @@ func (w *fpWalk) exprs(es ...ast.Expr) {
 				w.direct[ast.Unparen(x.Fun)] = true
 				w.callee(x)
 				w.heapErrorsAs(x)
+				w.heapMutatorCall(x)
 				if c, ok := isAppend(x); ok && !w.inAssign {
 					src := w.provOf(c.Args[0])
 					if src.Root.Kind != "fresh" {
@@ -1076,10 +1077,13 @@ func (w *fpWalk) stmt(s ast.Stmt) {
 			}
 		}
 	case *ast.IfStmt:
+		asPre := w.heapAsTargets(x) // footprint_c20heap.go: what the targets of an errors.As in this `if` referred to before it
 		w.stmt(x.Init)
 		w.exprs(x.Cond)
 		w.conds = append(w.conds, x.Cond)
+		asPost := w.heapAsFailed(x, asPre) // inside `if !errors.As(err, &t) {…}` t still is what it was
 		w.block(x.Body.List)
+		w.heapAsRestore(asPost)
 		w.conds = w.conds[:len(w.conds)-1]
 		w.stmt(x.Else)
 	case *ast.ForStmt:
@@ -1651,6 +1655,7 @@ func footprintFacts(gc *genCtx) string {
 		return a
 	})
 	g.heap.ret = handsOut
+	g.heap.mutators = c11ErrorMutators(gc)
 	g.scan()
 
 	var b strings.Builder
